@@ -164,6 +164,9 @@ type runner struct {
 	pre      int // size before the last write
 	memo     map[string]*verdict
 	cache    map[string]built
+	// the file on disk starts with full[:fileValid] of history fileKey
+	fileKey   string
+	fileValid int
 }
 
 type built struct {
@@ -221,6 +224,7 @@ func (r *runner) build(sessions [][]int) {
 		}
 		r.cache[key] = built{r.full, r.pre}
 	}()
+	r.fileKey = ""
 	for try := 0; ; try++ {
 		os.Remove(r.file)
 		pre := 0
@@ -281,9 +285,7 @@ func (r *runner) eval(k kase) *verdict {
 	if k.crash >= 0 && k.crash < wlen {
 		cut = k.crash
 	}
-	if err := os.WriteFile(r.file, r.full[:r.pre+cut], 0600); err != nil {
-		r.harness("%v", err)
-	}
+	r.place(key0(k), r.full[:r.pre+cut])
 	if len(k.after) > 0 {
 		if err := writeSession(r.file, k.after); err != nil {
 			r.harness("Write failed: %v", err)
@@ -325,6 +327,33 @@ func (r *runner) eval(k kase) *verdict {
 	}
 	r.memo[key] = v
 	return v
+}
+
+func key0(k kase) string { return kase{sessions: k.sessions}.String() }
+
+// place makes the history file equal to want. When the file still starts with a prefix of the same
+// built history (the after-session only appended to it) only the difference is written.
+func (r *runner) place(key string, want []byte) {
+	target := len(want)
+	if r.fileKey == key && r.fileValid >= 0 {
+		keep := min(r.fileValid, target)
+		err := os.Truncate(r.file, int64(keep))
+		if err == nil && keep < target {
+			var f *os.File
+			if f, err = os.OpenFile(r.file, os.O_APPEND|os.O_WRONLY, 0600); err == nil {
+				_, err = f.Write(want[keep:])
+				f.Close()
+			}
+		}
+		if err == nil {
+			r.fileValid = target
+			return
+		}
+	}
+	if err := os.WriteFile(r.file, want, 0600); err != nil {
+		r.harness("%v", err)
+	}
+	r.fileKey, r.fileValid = key, target
 }
 
 func clone(k kase) kase {
